@@ -687,6 +687,32 @@ func (vc *VC) execInstr(act *Act, st *State, ins ssa.Instruction) {
 	}
 }
 
+func plusT(a, b string) string {
+	if b == "0" {
+		return a
+	}
+	if a == "0" {
+		return b
+	}
+	x, e1 := parseInt(a)
+	y, e2 := parseInt(b)
+	if e1 == nil && e2 == nil {
+		return num(x + y)
+	}
+	return fmt.Sprintf("(+ %s %s)", a, b)
+}
+func minusT(a, b string) string {
+	if b == "0" {
+		return a
+	}
+	x, e1 := parseInt(a)
+	y, e2 := parseInt(b)
+	if e1 == nil && e2 == nil {
+		return num(x - y)
+	}
+	return fmt.Sprintf("(- %s %s)", a, b)
+}
+
 func parseInt(s string) (int64, error) {
 	var n int64
 	_, err := fmt.Sscanf(s, "%d", &n)
@@ -1087,7 +1113,7 @@ func (vc *VC) sliceOp(act *Act, st *State, i *ssa.Slice) {
 		mx = vc.val(act, i.Max).(IntV).t
 	}
 	vc.safety(act, st, "slicebounds", fmt.Sprintf("(and (<= 0 %s) (<= %s %s) (<= %s %s) (<= %s %s))", lo, lo, hi, hi, mx, mx, base.cp), i.Pos())
-	act.env[i] = SliceV{base.ref, vc.def("so", "Int", fmt.Sprintf("(+ %s %s)", base.off, lo)), vc.def("sl", "Int", fmt.Sprintf("(- %s %s)", hi, lo)), vc.def("sc", "Int", fmt.Sprintf("(- %s %s)", mx, lo))}
+	act.env[i] = SliceV{base.ref, vc.def("so", "Int", plusT(base.off, lo)), vc.def("sl", "Int", minusT(hi, lo)), vc.def("sc", "Int", minusT(mx, lo))}
 }
 
 // ---------- maps ----------
